@@ -127,33 +127,35 @@ type HTwin struct {
 }
 
 type HCase struct {
-	Twin        *HTwin     `json:"twin,omitempty"` // the same history without injected backend failures
-	Index       int        `json:"index"`
-	Seed        uint64     `json:"seed"`
-	Max         int        `json:"max"`
-	N           int        `json:"players"`
-	Ante        int64      `json:"ante"`
-	Dealer      int64      `json:"dealer_blind"`
-	SB          int64      `json:"sb"`
-	BB          int64      `json:"bb"`
-	ActionTime  int        `json:"action_time"`
-	FaultPct    int        `json:"fault_pct"`
-	AutoFault   string     `json:"auto_fault,omitempty"` // kind of the engine's own step that fails (ends the history)
-	AutoAt      int        `json:"auto_at,omitempty"`    // ... at its k-th opportunity
-	FirstDealer int        `json:"first_dealer,omitempty"`
-	WantDealer  int        `json:"-"`
-	Withhold    bool       `json:"withhold,omitempty"`         // one participant never answers one request: the 17 s timeout must move the hand on
-	Started     bool       `json:"started_backend,omitempty"`  // the backend names the betting event "Started"
-	WithholdAt  string     `json:"withhold_at,omitempty"`      // ready | ante | blinds
-	StateOnFail bool       `json:"state_with_error,omitempty"` // an injected backend failure returns the state the engine computed together with the error (a lost reply)
-	LateExtPct  int        `json:"late_extend_pct,omitempty"`  // chance that a deadline extension is served right after a betting round closed (inside Next)
-	PausePct    int        `json:"pause_pct,omitempty"`        // chance of letting 1.1 s pass before a legal action
-	IllegalPct  int        `json:"illegal_pct"`
-	ExtendPct   int        `json:"extend_pct"`
-	Hands       int        `json:"hands"`
-	Steps       []HStep    `json:"steps"`
-	Final       [][2]int64 `json:"final_bankrolls"`
-	Note        string     `json:"note,omitempty"`
+	Twin         *HTwin     `json:"twin,omitempty"` // the same history without injected backend failures
+	Index        int        `json:"index"`
+	Seed         uint64     `json:"seed"`
+	Max          int        `json:"max"`
+	N            int        `json:"players"`
+	Ante         int64      `json:"ante"`
+	Dealer       int64      `json:"dealer_blind"`
+	SB           int64      `json:"sb"`
+	BB           int64      `json:"bb"`
+	ActionTime   int        `json:"action_time"`
+	FaultPct     int        `json:"fault_pct"`
+	AutoFault    string     `json:"auto_fault,omitempty"` // kind of the engine's own step that fails (ends the history)
+	AutoAt       int        `json:"auto_at,omitempty"`    // ... at its k-th opportunity
+	FirstDealer  int        `json:"first_dealer,omitempty"`
+	WantDealer   int        `json:"-"`
+	Withhold     bool       `json:"withhold,omitempty"`              // one participant never answers one request: the 17 s timeout must move the hand on
+	Started      bool       `json:"started_backend,omitempty"`       // the backend names the betting event "Started"
+	LeavePct     int        `json:"bystander_leave_pct,omitempty"`   // chance per step that the seated, never-joined player leaves mid-hand
+	PartLeavePct int        `json:"participant_leave_pct,omitempty"` // chance per step that a dealt-in player leaves mid-hand (ends the history)
+	WithholdAt   string     `json:"withhold_at,omitempty"`           // ready | ante | blinds
+	StateOnFail  bool       `json:"state_with_error,omitempty"`      // an injected backend failure returns the state the engine computed together with the error (a lost reply)
+	LateExtPct   int        `json:"late_extend_pct,omitempty"`       // chance that a deadline extension is served right after a betting round closed (inside Next)
+	PausePct     int        `json:"pause_pct,omitempty"`             // chance of letting 1.1 s pass before a legal action
+	IllegalPct   int        `json:"illegal_pct"`
+	ExtendPct    int        `json:"extend_pct"`
+	Hands        int        `json:"hands"`
+	Steps        []HStep    `json:"steps"`
+	Final        [][2]int64 `json:"final_bankrolls"`
+	Note         string     `json:"note,omitempty"`
 }
 
 type handRun struct {
@@ -384,6 +386,24 @@ func (hr *handRun) withhold(c *HCase, calls []HCall, event string) {
 	}
 }
 
+// a bystander (seated, never joined, not dealt in) leaves the table while the hand runs: nothing about the hand may change
+func (hr *handRun) bystanderLeaves(c *HCase, id int) *HStep {
+	d := hr.d
+	s := HStep{Call: HCall{Player: id, Action: "leave", Why: "bystander"}, Pre: hr.snap()}
+	d.takeEvents()
+	s.Now0 = time.Now().Unix()
+	err := d.te.PlayersLeave([]string{pid(id)})
+	s.Now1 = time.Now().Unix()
+	s.Ok = err == nil
+	s.Post = hr.snap()
+	d.Quiesce(quiesceLimit)
+	s.Quiet = hr.snap()
+	s.Now2 = time.Now().Unix()
+	d.takeEvents()
+	c.Steps = append(c.Steps, s)
+	return &c.Steps[len(c.Steps)-1]
+}
+
 // one attempt = one observation
 func (hr *handRun) attempt(c *HCase, call HCall, await bool) *HStep {
 	d := hr.d
@@ -505,6 +525,14 @@ func runHandCase(c *HCase) {
 		}
 		gs.Meta.Deck = nd
 	}
+	// one player who sits at the table but never joins (not dealt in); reserved FIRST now and then, so that it precedes the
+	// participants in the table's player list
+	sitOut := 0
+	sitFirst := c.N < c.Max && r.Chance(2, 3)
+	if sitFirst && r.Chance(1, 2) {
+		sitOut = c.N + 1
+		d.te.PlayerReserve(pt.JoinPlayer{PlayerID: pid(sitOut), RedeemChips: 500, Seat: c.N})
+	}
 	for i := 0; i < c.N; i++ {
 		chips := int64(40 + r.Intn(600))
 		if r.Chance(1, 5) {
@@ -512,9 +540,8 @@ func runHandCase(c *HCase) {
 		}
 		d.te.PlayerReserve(pt.JoinPlayer{PlayerID: pid(i + 1), RedeemChips: chips, Seat: i})
 	}
-	// one player who sits at the table but never joins (not dealt in), one stranger id (99)
-	sitOut := 0
-	if c.N < c.Max && r.Chance(1, 2) {
+	// ... or last; one stranger id (99)
+	if sitOut == 0 && sitFirst {
 		sitOut = c.N + 1
 		d.te.PlayerReserve(pt.JoinPlayer{PlayerID: pid(sitOut), RedeemChips: 500, Seat: c.N})
 	}
@@ -594,6 +621,21 @@ func runHandCase(c *HCase) {
 		if st.Status != pt.TableStateStatus_TableGamePlaying || st.GameState == nil {
 			c.Note = "table is " + string(st.Status) + " when a hand should be in progress"
 			break
+		}
+		if sitOut != 0 && c.LeavePct > 0 && r.Chance(c.LeavePct, 100) {
+			hr.bystanderLeaves(c, sitOut)
+			sitOut = 0
+			continue
+		}
+		if c.PartLeavePct > 0 && r.Chance(c.PartLeavePct, 100) && len(st.GameState.Players) >= 3 {
+			// a DEALT-IN player (not the one to act) leaves the table while the hand runs; the history ends here
+			gp := r.Intn(len(st.GameState.Players))
+			if gp != st.GameState.Status.CurrentPlayer {
+				s := hr.bystanderLeaves(c, idOf(d.playerIDAt(gp)))
+				s.Call.Why = "participant"
+				c.Note = "a participant left mid-hand"
+				break
+			}
 		}
 		gs := st.GameState
 		if gs.Status.CurrentEvent == "Started" { // the harness's own choices do not depend on the name
@@ -808,6 +850,12 @@ func genHand(root *RNG, i int, seed uint64) HCase {
 	if r.Chance(1, 4) {
 		c.PausePct = 6
 	}
+	if r.Chance(2, 3) {
+		c.LeavePct = 20
+	}
+	if r.Chance(1, 8) {
+		c.PartLeavePct = 6
+	}
 	if r.Chance(1, 4) {
 		c.LateExtPct = 50
 	}
@@ -941,6 +989,8 @@ func coqAct(a string) string {
 		return "ARaise"
 	case "extend":
 		return "AExtend"
+	case "leave":
+		return "ALeave"
 	}
 	return "APass"
 }
@@ -1040,6 +1090,10 @@ func coqWhy(w string) string {
 		return "WNoHand"
 	case "withheld":
 		return "WWithheld"
+	case "bystander":
+		return "WBystander"
+	case "participant":
+		return "WParticipant"
 	}
 	return "WGroup"
 }
